@@ -510,7 +510,48 @@ def case_edge(col, p):
     col.distinct('nontrivial', ('edge', A, B, p['edge']))
 
 
-CASES = {'model': case_model, 'edge': case_edge}
+def auto_edges():
+    """nesting edges derived from the models' call programs by tools/discover_c15_edges.py (data file, reviewed; never written at check time)"""
+    import json
+    import os
+    fn = os.path.join(os.path.dirname(os.path.abspath(__file__)), 'C15_auto_edges.json')
+    return json.load(open(fn)) if os.path.exists(fn) else []
+
+
+def case_auto_edge(col, p):
+    cat = catalogue()
+    n = 0
+    for e in p['edges']:
+        A, B = e['A'], e['B']
+        if A not in cat or B not in cat:
+            col.violation('C15:nesting_graph:model_missing', dict(kind='auto_edge', A=A, B=B), '')
+            continue
+        fa, fb = cat[A][0], cat[B][0]
+        na, nb = list(fa.__param_names__), list(fb.__param_names__)
+        d = e['npop']
+        for v in p.get('variants', (0, 1)):
+            qa = {x: (0.0 if x in e['zero'] else value_for(x, v)) for x in na}
+            if set(e['qb']) != set(nb) or any(isinstance(val, str) and val[2:] not in qa for val in e['qb'].values()):
+                col.violation('harness:C15:edge_parameter_names', dict(kind='auto_edge', A=A, B=B), 'parameter names changed since the edge file was derived')
+                break
+            qb = {k: (qa[val[2:]] if isinstance(val, str) else val) for k, val in e['qb'].items()}
+            info = dict(kind='auto_edge', edges=[e], variants=[v], A=A, B=B, paramsA=qa, paramsB=qb)
+            try:
+                a, b = call(fa, na, qa, d), call(fb, nb, qb, d)
+                col.tick(transitions=2)
+                ok, err = close(a, b, 1e-11)
+                if not ok:
+                    col.violation('C15:nesting:%s->%s' % (A, B), info, {'relerr': err, 'at': 'zero ' + ','.join(e['zero'])})
+                else:
+                    col.observe('nesting_exact', err / 1e-11 if err else 0.0)
+            except Exception as ex:
+                col.violation('C15:nesting:%s->%s:raises' % (A, B), info, '%s: %s' % (type(ex).__name__, str(ex)[:200]))
+            n += 1
+        col.distinct('nontrivial', ('auto_edge', A, B, tuple(e['zero'])))
+    col.tick(states=n, traces=n)
+
+
+CASES = {'model': case_model, 'edge': case_edge, 'auto_edge': case_auto_edge}
 
 
 def _dispatch(col, case):
@@ -539,6 +580,11 @@ def run(ctx):
         if d is None:
             continue
         cases.append({'kind': 'edge', 'edge': i, 'npop': d, 'variants': variants})
+    AE = auto_edges()
+    per = 6
+    for lo in range(0, len(AE), per):
+        cases.append({'kind': 'auto_edge', 'edges': AE[lo:lo + per], 'npop': max(e['npop'] for e in AE[lo:lo + per]), 'variants': variants})
+    ctx.note('program-derived nesting edges (zero-length epochs, zero migration): %d' % len(AE))
     ctx.note('catalogue: %d models (%s); explicit nesting edges: %d' % (len(cat), ', '.join('%dD:%d' % (d, sum(1 for v in npops.values() if v == d)) for d in (1, 2, 3)), len(edges)))
     cases.sort(key=lambda c: -c['npop'])
     explore.pmap(ctx, _dispatch, cases, chunk=1)
